@@ -66,7 +66,7 @@ def top_statements(body):
 
 
 def generate(repo):
-    err = None; phases = []; main_loop = None
+    err = None; phases = []; main_loop = None; file_target = None
     try:
         cfg = open(os.path.join(repo, "include", "global_configuration.hpp")).read()
         mac = macros(strip_comments(cfg))
@@ -103,15 +103,32 @@ def generate(repo):
             raise ValueError("main loop of solver::run not understood")
         after = rbody[m.end():]
         main_loop = ("time_lt_duration_and_population_nonempty", bool(re.search(r"statistic_writer_ptr_\s*->\s*write_data\s*\(", after)))
+        # save_mesh(): the target file number and the loop that catches up with it
+        sbody = function_body(src, r"void\s+solver::save_mesh\s*\(\s*\)[^{]*\{")
+        sb = re.sub(r"\s+", " ", sbody)
+        sb = sb.replace("time_integrator_ptr_->get_simulation_time()", "t").replace("sim_parameters_.sampling_period_", "Sp")
+        m2 = re.search(r"unsigned new_file_nb = static_cast<unsigned>\(std::floor\((.*?)\) \+ 1\);", sb)
+        if not m2:
+            raise ValueError("save_mesh: target file number not understood")
+        from translate_grid import E as GE, tokenize as gtok
+        e_, te_ = GE(gtok(m2.group(1)), {"t": "d", "Sp": "d"}).sum()
+        if te_ != "d":
+            raise ValueError("save_mesh: floor of an integer")
+        if not re.search(r"while ?\( ?file_number_ < new_file_nb ?\) ?\{ ?file_number_\+\+;", sb):
+            raise ValueError("save_mesh: catch-up loop not understood")
+        if not re.search(r"mesh_writer::write\(", sb):
+            raise ValueError("save_mesh: no call of mesh_writer::write")
+        file_target = e_
     except Exception as e:      # noqa
         err = str(e)
     L = ["(* Iteration_gen.v — GENERATED by harness/translate_iteration.py from /repo/src/solver.cpp on every run. Do not edit. *)",
-         "From Coq Require Import List Bool.", "From SC Require Import IterationDefs.", "Import ListNotations.", ""]
+         "From Coq Require Import List Bool ZArith.", "From SC Require Import Num IterationDefs.", "Import ListNotations.", ""]
     if err:
         L.append("(* translation failed: %s *)" % err.replace("*)", "* )"))
         L.append("Definition iteration_translation_ok : bool := false.")
         L.append("Definition run_iteration_phases : list phase_entry := [].")
         L.append("Definition run_loop_final_statistics : bool := false.")
+        L.append("Definition file_target_gen {T : Type} (N : SC.Num.Num T) (floorZ : T -> BinNums.Z) (t Sp : T) : BinNums.Z := 0%Z.")
     else:
         L.append("Definition iteration_translation_ok : bool := true.")
         L.append("Definition run_iteration_phases : list phase_entry := [")
@@ -119,6 +136,8 @@ def generate(repo):
         L.append("].")
         L.append("(* while(time < duration && population not empty) run_iteration();  then a last statistics record: *)")
         L.append("Definition run_loop_final_statistics : bool := %s." % ("true" if main_loop[1] else "false"))
+        L.append("(* save_mesh: new_file_nb = floor(...) + 1; while(file_number_ < new_file_nb){ file_number_++; write } *)")
+        L.append("Definition file_target_gen {T : Type} (N : SC.Num.Num T) (floorZ : T -> BinNums.Z) (t Sp : T) : BinNums.Z := BinInt.Z.add (floorZ %s) 1%%Z." % file_target)
     return "\n".join(L) + "\n"
 
 
